@@ -22,7 +22,7 @@ FILESET = "typhon/files/fileset.py"
 TIMEUTILS = "typhon/utils/timeutils.py"
 TREES = "typhon/trees.py"
 EXPECT = {"C01.args": 3, "C01.semiopen": 4, "C01.prune": 9, "C01.anchor": 3, "C01.exclude": 3, "C01.blacklist": 3, "C01.sortkey": 2, "C01.bundle": 3,
-          "C01.trunc": 1, "C01.restable": 2, "C01.len": 3, "C01.pathstate": 1, "C01.reset": 1}
+          "C01.trunc": 1, "C01.restable": 2, "C01.len": 3, "C01.pathstate": 1, "C01.reset": 1, "C01.answer": 2, "C01.fill": 1}
 
 US = {"microseconds": 1, "milliseconds": 1000, "seconds": 10 ** 6, "minutes": 60 * 10 ** 6, "hours": 3600 * 10 ** 6, "days": 86400 * 10 ** 6, "weeks": 7 * 86400 * 10 ** 6}
 
@@ -151,13 +151,28 @@ def rule_semiopen(ctx):
     if fc:
         c2 = fc[0]
         kw = {k.arg: norm(k.value) for k in c2.keywords}
-        sdefs = hflow.defs(norm(c2.args[0]), enclosing_stmt(c2))
-        edefs = hflow.defs(norm(c2.args[1]), enclosing_stmt(c2))
+        kwn = {k.arg: k.value for k in c2.keywords}
+        a_s = c2.args[0] if len(c2.args) > 0 else kwn.get("start")
+        a_e = c2.args[1] if len(c2.args) > 1 else kwn.get("end")
+        if a_s is None or a_e is None:
+            raise AnalysisError("__contains__: the period handed to find() was not found in %s" % norm(c2)[:70])
+        sdefs = hflow.defs(norm(a_s), enclosing_stmt(c2))
+        edefs = hflow.defs(norm(a_e), enclosing_stmt(c2))
         scalar_end = [d for d in edefs if isinstance(d, ast.Assign) and isinstance(d.value, ast.BinOp)]
         eps = None
-        if scalar_end and isinstance(scalar_end[0].value.op, ast.Add) and norm(scalar_end[0].value.left) == norm(c2.args[0]):
+        if scalar_end and isinstance(scalar_end[0].value.op, ast.Add) and norm(scalar_end[0].value.left) == norm(a_s):
             eps = timedelta_ticks(scalar_end[0].value.right)
-        fact = "find(%s, %s, %s); scalar arm end = start + %s tick(s)" % (norm(c2.args[0]), norm(c2.args[1]), kw, eps)
+        if eps is None:
+            # the period built as a pair under "not a sequence": (t, t + 1 tick), unpacked into the two arguments
+            asm_ = {"isinstance(%s, (tuple, list))" % h.params[1]: False, "isinstance(%s, (list, tuple))" % h.params[1]: False}
+            try:
+                v_s = hflow.resolve_under(a_s, asm_, at=c2, depth=4, stop=(h.params[1],))
+                v_e = hflow.resolve_under(a_e, asm_, at=c2, depth=4, stop=(h.params[1],))
+                if isinstance(v_e, ast.BinOp) and isinstance(v_e.op, ast.Add) and norm(v_e.left) == norm(v_s):
+                    eps = timedelta_ticks(v_e.right)
+            except AnalysisError:
+                eps = None
+        fact = "find(%s, %s, %s); scalar arm end = start + %s tick(s)" % (norm(a_s), norm(a_e), {k_: v_ for k_, v_ in kw.items() if k_ not in ("start", "end")}, eps)
         okc = eps == 1 and kw.get("no_files_error") == "False"
     ctx.ob("FileSet.__contains__", okc, fact, "`t in fileset` searches [t, t + 1 tick) i.e. t0 <= t <= t1; no error for an empty answer", node=fc[0] if fc else h.node, func=h)
 
@@ -680,7 +695,10 @@ def rule_sort_bundle(ctx):
                 raise AnalysisError("_prepare_find_return: sort key %s not understood" % norm(key)[:60])
             okk = kx is not None and norm(kx[1]).replace(" ", "") in ("(%s.times[0],%s.times[1])" % (kx[0], kx[0]), "tuple(%s.times)" % kx[0], "%s.times" % kx[0]) \
                 and "reverse" not in kw
-            ok = okk and norm(srt[0].args[0]) == fi and norm(first.body[0].targets[0]) == fi
+            tgt_ = str(norm(first.body[0].targets[0]))
+            same_stream = tgt_ == fi or (len(first.orelse) == 1 and isinstance(first.orelse[0], ast.Assign) and str(norm(first.orelse[0].targets[0])) == tgt_
+                                         and str(norm(first.orelse[0].value)) == fi)
+            ok = okk and norm(srt[0].args[0]) == fi and same_stream
     ctx.ob("FileSet._prepare_find_return.sort", ok, fact, "sorted(files, key=(t0, t1)) ascending iff sort or isinstance(bundle, int)", node=first, func=f)
     d = ctx.func(FILESET, "FileSet.find").defaults()
     ctx.ob("FileSet.find.sort_default", norm(d.get("sort", ast.Constant(None))) == "True", "find(sort=%s)" % norm(d.get("sort")) if "sort" in d else "no default", "sort defaults to True",
@@ -703,6 +721,13 @@ def rule_sort_bundle(ctx):
     none_arm = [s for s in f.body if isinstance(s, ast.If) and norm(s.test) == "%s is None" % bs]
     okn = bool(none_arm) and [norm(s) for s in none_arm[0].body] == ["yield from %s" % fi, "return"]
     bflow = Flow(f)
+    if not okn and none_arm and len(none_arm[0].body) == 2 and isinstance(none_arm[0].body[1], ast.Return) and none_arm[0].body[1].value is None \
+            and isinstance(none_arm[0].body[0], ast.Expr) and isinstance(none_arm[0].body[0].value, ast.YieldFrom) and isinstance(none_arm[0].body[0].value.value, ast.Name):
+        # the stream under another name: every definition of it is the iterator itself or its sorted list
+        nm_ = none_arm[0].body[0].value.value.id
+        ds_ = [d_ for d_ in bflow.defs(nm_, none_arm[0]) if d_ != "param"]
+        okn = bool(ds_) and all(isinstance(d_, ast.Assign) and (str(norm(d_.value)) == fi or str(norm(d_.value)).replace(" ", "").startswith("sorted(%s," % fi)
+                                                                 or str(norm(d_.value)) == "list(%s)" % fi) for d_ in ds_)
     sers = [c_ for c_ in calls_in(f.node, "Series") if (dotted(c_.func) or "").split(".")[-1] == "Series"]
     okts = False
     ts_txt = None
@@ -714,6 +739,15 @@ def rule_sort_bundle(ctx):
         if isinstance(data, ast.Name) and index is not None:
             src = bflow.resolve(data, at=tc, depth=1)
             okts = str(norm(src)) == "list(%s)" % fi and norm(index) == "[file.times[0] for file in %s]" % data.id
+            if not okts and isinstance(src, ast.Name):
+                # the list bound where the stream is sorted (a bundle size is given on this path: the sorted arm is the live one)
+                bs_ = f.params[-1] if f.params else "bundle_size"
+                asm_b = {"%s is None" % bs_: False, "%s is not None" % bs_: True}
+                for sn_ in ("sort",):
+                    asm_b["%s or %s is not None" % (sn_, bs_)] = True
+                src2 = bflow.resolve_under(data, asm_b, at=tc, depth=2, stop=(fi,))
+                t2_ = str(norm(src2)).replace(" ", "")
+                okts = (t2_ == "list(%s)" % fi or t2_.startswith("sorted(%s," % fi)) and norm(index) == "[file.times[0] for file in %s]" % data.id
             # grouping by time frequency needs a DatetimeIndex: an empty selection has none (pandas raises TypeError) - with nothing
             # selected the series is not even built
             N = data.id
@@ -901,7 +935,13 @@ def run(ctx):
     from .C15 import rule_reset
     for r in (rule_semiopen, rule_prune, rule_exclude, rule_blacklist, rule_sort_bundle, rule_trunc_table, rule_len, rule_pathstate):
         ctx.attempt(r, ctx)
-    ctx.attempt(rule_anchor, ctx, "C01.anchor")
+    from .C02 import fill_evaluated
+    fill_evaluated(ctx, "C01.fill", (rule_anchor, (ctx, "C01.anchor"), ("C01.anchor",)))
+    from ..early import rule_early_table
+    rule_early_table(ctx, "C01.answer", [
+        (FILESET, "FileSet.__contains__", ("find", "find_closest"), "the search", ()),
+        (FILESET, "FileSet.__getitem__", ("find_closest", "find", "collect"), "the search", ()),
+    ])
     from .C02 import rule_memo
     ctx.attempt(rule_memo, ctx, "C02.memo")
     ctx.rule("C01.reset", "T1", "changing time_coverage resets the cached file infos (their end times depend on it)")
